@@ -273,6 +273,14 @@ func c19HistRun(a c19Hist) caseResult {
 		v types.VerifierOnlyCircuitDataRaw
 	}
 	raws := make([]rawPair, len(a.Docs))
+	var histProofPath, histVDataPath string
+	defer func() {
+		for _, n := range []string{histProofPath, histVDataPath} {
+			if n != "" {
+				os.Remove(n)
+			}
+		}
+	}()
 	for i, d := range a.Docs {
 		var refused string
 		func() {
@@ -282,15 +290,17 @@ func c19HistRun(a c19Hist) caseResult {
 				}
 			}()
 			if a.ViaPath[i] {
-				write := func(b []byte) string {
-					f, _ := os.CreateTemp(os.Getenv("VERIF_OUT"), "c19-*.json")
-					f.Write(b)
-					f.Close()
-					return f.Name()
+				// one path pair per history: a later document overwrites the file an earlier one was read from
+				write := func(name *string, b []byte) string {
+					if *name == "" {
+						f, _ := os.CreateTemp(os.Getenv("VERIF_OUT"), "c19-*.json")
+						*name = f.Name()
+						f.Close()
+					}
+					os.WriteFile(*name, b, 0o644)
+					return *name
 				}
-				pf, vf := write(d.Proof), write(d.VData)
-				defer os.Remove(pf)
-				defer os.Remove(vf)
+				pf, vf := write(&histProofPath, d.Proof), write(&histVDataPath, d.VData)
 				raws[i] = rawPair{types.ReadProofWithPublicInputs(pf), types.ReadVerifierOnlyCircuitData(vf)}
 			} else {
 				raws[i] = rawPair{types.ReadProofWithPublicInputsFromRequest(d.Proof), types.ReadVerifierOnlyCircuitDataFromRequest(d.VData)}
@@ -376,13 +386,31 @@ func c19CorruptRun(a c19Corrupt) caseResult {
 // common circuit data: every configuration number must arrive unchanged
 type c19Common struct {
 	Doc json.RawMessage `json:"doc"`
+	// documents written to the same path and read again afterwards (a regenerated common_circuit_data.json)
+	Then []json.RawMessage `json:"then_same_path,omitempty"`
 }
 
 func c19CommonRun(a c19Common) caseResult {
 	f, _ := os.CreateTemp(os.Getenv("VERIF_OUT"), "cd-*.json")
-	f.Write(a.Doc)
 	f.Close()
 	defer os.Remove(f.Name())
+	res := c19CommonOne(f.Name(), a.Doc, "")
+	for i, d := range a.Then {
+		if res.Viol != "" {
+			break
+		}
+		res = c19CommonOne(f.Name(), d, fmt.Sprintf("document %d written to the path of the previous one and read again: ", i+2))
+	}
+	return res
+}
+
+func c19CommonOne(path string, docBytes json.RawMessage, ctx string) caseResult {
+	a := struct{ Doc json.RawMessage }{docBytes}
+	if err := os.WriteFile(path, a.Doc, 0o644); err != nil {
+		return caseResult{Viol: "infra/common-write", Desc: err.Error()}
+	}
+	f, _ := os.Open(path)
+	f.Close()
 	var cd types.CommonCircuitData
 	refused := ""
 	func() {
@@ -394,7 +422,7 @@ func c19CommonRun(a c19Common) caseResult {
 		cd = types.ReadCommonCircuitData(f.Name())
 	}()
 	if refused != "" {
-		return caseResult{Viol: "common-refused", Desc: "well-formed common circuit data refused: " + truncate(refused, 200)}
+		return caseResult{Viol: "common-refused", Desc: ctx + "well-formed common circuit data refused: " + truncate(refused, 200)}
 	}
 	var raw types.CommonCircuitDataRaw
 	if err := json.Unmarshal(a.Doc, &raw); err != nil {
@@ -434,7 +462,7 @@ func c19CommonRun(a c19Common) caseResult {
 	}
 	for _, c := range checks {
 		if fmt.Sprint(c.got) != fmt.Sprint(c.want) {
-			return caseResult{Viol: "common/" + c.name, Desc: fmt.Sprintf("common data field %s: configuration has %v, document says %v", c.name, c.got, c.want)}
+			return caseResult{Viol: "common/" + c.name, Desc: ctx + fmt.Sprintf("common data field %s: configuration has %v, document says %v", c.name, c.got, c.want)}
 		}
 	}
 	return caseResult{Info: map[string]any{"fields": len(checks)}}
@@ -444,7 +472,7 @@ func TestC19(t *testing.T) {
 	s := newSuite("C19")
 	r := s.r
 	defer r.Flush()
-	r.Rule("model-generated proof / verifier-data documents with random shapes (cap sizes 0..17, 0..4 query rounds, 0..5 eval proofs of leaf width 0..12, 0..3 steps with 0..17 evaluations, sibling counts 0..13, opening lists 0..9, 0..20 public inputs) and values (64-bit numbers incl. >= p and 2^64-1; lists ending or starting in all-zero elements; decimal hash strings incl. r-1, r, values up to 2^260) are read with the repository's readers and compared leaf by leaf (name and value, in schema order) with the model; single-value edits must change exactly that leaf; single-value corruptions from the listed classes (non-numeric / non-decimal string, negative, fractional, >= 2^64 number, scalar where a list is expected, number where a string is expected) must be refused at read, deserialise or witness time; random common-circuit-data documents must arrive field by field; histories: 2..4 documents are read (byte readers or path readers) before any is deserialised, then deserialised in a drawn order, each assignment must carry exactly its own document's numbers.  Non-trivial = document with at least 8 numbers; distinct = document.")
+	r.Rule("model-generated proof / verifier-data documents with random shapes (cap sizes 0..17, 0..4 query rounds, 0..5 eval proofs of leaf width 0..12, 0..3 steps with 0..17 evaluations, sibling counts 0..13, opening lists 0..9, 0..20 public inputs) and values (64-bit numbers incl. >= p and 2^64-1; lists ending or starting in all-zero elements; decimal hash strings incl. r-1, r, values up to 2^260) are read with the repository's readers and compared leaf by leaf (name and value, in schema order) with the model; single-value edits must change exactly that leaf; single-value corruptions from the listed classes (non-numeric / non-decimal string, negative, fractional, >= 2^64 number, scalar where a list is expected, number where a string is expected) must be refused at read, deserialise or witness time; random common-circuit-data documents must arrive field by field; histories: 2..4 documents are read (byte readers or path readers) before any is deserialised, then deserialised in a drawn order, each assignment must carry exactly its own document's numbers.  Documents of one history that are read from files share one path pair (a later document overwrites the file an earlier one was read from), and a third of the common-data cases write 1..2 further documents to the path just read and read it again: every read must reflect the file as it is then.  Non-trivial = document with at least 8 numbers; distinct = document.")
 	r.Assume("signed decimal strings and JSON null are outside the listed corruption classes and are not generated")
 	s.on("faithful", func(b json.RawMessage) caseResult { return c19Faithful(unmarshal[c19Doc](b)) })
 	s.on("corrupt", func(b json.RawMessage) caseResult { return c19CorruptRun(unmarshal[c19Corrupt](b)) })
@@ -616,14 +644,24 @@ func TestC19(t *testing.T) {
 		for i := range groups {
 			groups[i] = map[string]any{"start": u(), "end": u()}
 		}
-		doc := map[string]any{
-			"config":     map[string]any{"num_wires": u(), "num_routed_wires": u(), "num_constants": u(), "use_base_arithmetic_gate": rapid.Bool().Draw(rt, "b"), "security_bits": u(), "num_challenges": u(), "zero_knowledge": rapid.Bool().Draw(rt, "zk"), "max_quotient_degree_factor": u(), "fri_config": fc()},
-			"fri_params": map[string]any{"config": fc(), "hiding": false, "degree_bits": u(), "reduction_arity_bits": ul(rapid.IntRange(0, 4).Draw(rt, "arities"))},
-			"gates":      gs, "selectors_info": map[string]any{"selector_indices": ul(ng), "groups": groups},
-			"quotient_degree_factor": u(), "num_gate_constraints": u(), "num_constants": u(), "num_public_inputs": u(), "k_is": ul(rapid.IntRange(0, 90).Draw(rt, "kis")), "num_partial_products": u(),
-			"num_lookup_polys": u(), "num_lookup_selectors": u(), "luts": []any{},
+		mk := func() map[string]any {
+			return map[string]any{
+				"config":     map[string]any{"num_wires": u(), "num_routed_wires": u(), "num_constants": u(), "use_base_arithmetic_gate": rapid.Bool().Draw(rt, "b"), "security_bits": u(), "num_challenges": u(), "zero_knowledge": rapid.Bool().Draw(rt, "zk"), "max_quotient_degree_factor": u(), "fri_config": fc()},
+				"fri_params": map[string]any{"config": fc(), "hiding": false, "degree_bits": u(), "reduction_arity_bits": ul(rapid.IntRange(0, 4).Draw(rt, "arities"))},
+				"gates":      gs, "selectors_info": map[string]any{"selector_indices": ul(ng), "groups": groups},
+				"quotient_degree_factor": u(), "num_gate_constraints": u(), "num_constants": u(), "num_public_inputs": u(), "k_is": ul(rapid.IntRange(0, 90).Draw(rt, "kis")), "num_partial_products": u(),
+				"num_lookup_polys": u(), "num_lookup_selectors": u(), "luts": []any{},
+			}
 		}
-		s.exec(rt, "common", c19Common{marshal(doc)}, "common-data/random")
+		c := c19Common{Doc: marshal(mk())}
+		class := "common-data/random"
+		if rapid.IntRange(0, 2).Draw(rt, "reread") == 0 {
+			for i := rapid.IntRange(1, 2).Draw(rt, "followups"); i > 0; i-- {
+				c.Then = append(c.Then, marshal(mk()))
+			}
+			class = "common-data/same-path-rewritten"
+		}
+		s.exec(rt, "common", c, class)
 	})
 	r.Done()
 }
